@@ -1172,3 +1172,202 @@ Proof.
     apply (L_release s t cl n (finish_op cl (RK (Some true))) I Hcl); rewrite ?Hp; cbn; auto; try tauto.
     intros m Hm. intuition congruence.
 Qed.
+Ltac kxe H := intro; etransitivity; [eapply kex_set; exact H | reflexivity].
+Ltac kne := intros; etransitivity; [apply kstat_set_ne; auto | reflexivity].
+
+Lemma vis_frame : forall s s', lst s' = lst s -> mtx s' = mtx s -> clients s' = clients s -> vis s' = vis s.
+Proof. intros s s' Hl Hm Hc. unfold vis. rewrite Hl, Hm. destruct (mtx s); auto. f_equal. f_equal. apply cst_frame. auto. Qed.
+
+Lemma vis_not_state : forall s n, Inv s -> (n < nslots s)%nat ->
+  (sst (slot_at s n) = SFree \/ sst (slot_at s n) = SEmp) -> ~ In n (vis s).
+Proof. intros s n I Hn Hs Hin. destruct (i_vis _ I n Hin) as [_ [V|[t V]]]; destruct Hs; congruence. Qed.
+
+Lemma step_coro_inv : forall s i k s',
+  Inv s -> nth_error (coros s) i = Some k -> step_coro cfg_fixed s i k = Some s' -> Inv s'.
+Proof.
+  intros s i k s' I Hk Hst.
+  pose proof (kstat_of _ _ _ Hk) as Hks. pose proof (kex_of _ _ _ Hk) as Hkx.
+  pose proof (i_coro _ I i) as Ci. unfold coro_ok in Ci. rewrite Hks in Ci.
+  unfold step_coro in Hst. destruct (kstv k) eqn:Ek.
+  - (* KReady j *)
+    destruct (nth_error (kprog k) j) as [w|] eqn:Ew.
+    + (* emplace *)
+      unfold emplace in Hst. destruct (freel s) as [|n r] eqn:Ef; inversion Hst; subst s'; clear Hst.
+      * (* new slot *)
+        set (fresh := {| ver := nver s; nidv := nver s; nco := i; nwi := j; nex := kexec k; linked := false; sst := SEmp |}).
+        set (s' := set_coro _ i _).
+        assert (Hn' : nslots s' = S (nslots s)) by (unfold nslots, s'; cbn; rewrite app_length; cbn; lia).
+        assert (Hsn : slot_at s' (nslots s) = fresh).
+        { unfold slot_at, s', nslots. cbn. rewrite app_nth2 by lia. now rewrite Nat.sub_diag. }
+        assert (Hso : forall m, (m < nslots s)%nat -> slot_at s' m = slot_at s m).
+        { intros m Hm. unfold slot_at, s'. cbn. apply app_nth1. exact Hm. }
+        assert (Hv : vis s' = vis s) by (apply vis_frame; reflexivity).
+        assert (Hki : kstat s' i = KLock j (nslots s)) by (unfold s'; apply kstat_set_eq; exact Hk).
+        assert (Hkxx : forall i', kex s' i' = kex s i') by (unfold s'; kxe Hk).
+        apply (Inv_ktrans s s' i (nslots s) fresh (KLock j (nslots s)) I); auto; try reflexivity.
+        -- left. rewrite Hks. eauto.
+        -- intro; lia.
+        -- rewrite Hks. cbn. auto.
+        -- lia.
+        -- lia.
+        -- intros m Hm. lia.
+        -- intros m Hm1 Hm2. rewrite Hso by auto. unfold same_core; auto 10.
+        -- cbn. lia.
+        -- unfold s'; kne.
+        -- unfold slot_ok. rewrite Hsn. unfold fresh. cbn [ver nidv nco nwi nex sst]. rewrite Hkxx, Hkx, Hki.
+           repeat split; auto. cbn. lia.
+        -- unfold coro_ok. rewrite Hki, Hsn. unfold fresh. cbn [sst nco nwi]. repeat split; auto. lia.
+        -- rewrite Hv. apply (i_vis_nodup _ I).
+        -- intro Hx. rewrite Hv in Hx. destruct (i_vis _ I _ Hx). lia.
+        -- change (freel s') with (freel s). rewrite Ef. constructor.
+        -- change (freel s') with (freel s). rewrite Ef. intros m [].
+        -- intros m Hm. change (lst s') with (lst s) in Hm.
+           assert (In m (vis s)) by (unfold vis; apply in_app_iff; auto). destruct (i_vis _ I m H) as [Hlt _].
+           rewrite Hso by auto. apply (i_linked _ I). auto.
+      * (* reused slot *)
+        set (fresh := {| ver := nver s; nidv := nver s; nco := i; nwi := j; nex := kexec k; linked := false; sst := SEmp |}).
+        set (s' := set_coro _ i _).
+        assert (Hnf : In n (freel s)) by (rewrite Ef; cbn; auto).
+        destruct (i_free _ I n Hnf) as [Hn Hgn].
+        pose proof (i_slot _ I n Hn) as Sn. unfold slot_ok in Sn. rewrite Hgn in Sn. destruct Sn as (S1 & S2 & S3 & S4).
+        pose proof (i_free_nodup _ I) as Fnd. rewrite Ef in Fnd. inversion Fnd as [|? ? Fn1 Fn2]; subst.
+        assert (Hn' : nslots s' = nslots s) by (unfold s'; exact (nslots_put s n fresh)).
+        assert (Hsn : slot_at s' n = fresh).
+        { unfold s'. change (slot_at (set_coro ?x i ?c) n) with (slot_at (put_slot s n fresh) n). apply slot_at_put_eq. exact Hn. }
+        assert (Hso : forall m, m <> n -> slot_at s' m = slot_at s m).
+        { intros m Hm. unfold s'. change (slot_at (set_coro ?x i ?c) m) with (slot_at (put_slot s n fresh) m). apply slot_at_put_ne. auto. }
+        assert (Hv : vis s' = vis s) by (apply vis_frame; reflexivity).
+        assert (Hki : kstat s' i = KLock j n) by (unfold s'; apply kstat_set_eq; exact Hk).
+        assert (Hkxx : forall i', kex s' i' = kex s i') by (unfold s'; kxe Hk).
+        assert (Hnv : ~ In n (vis s)) by (apply vis_not_state; auto).
+        apply (Inv_ktrans s s' i n fresh (KLock j n) I); auto; try reflexivity.
+        -- left. rewrite Hks. eauto.
+        -- cbv zeta. intros _. left. unfold fresh. cbn. lia.
+        -- rewrite Hks. cbn. auto.
+        -- lia.
+        -- lia.
+        -- intros m Hm. right. lia.
+        -- intros m Hm1 Hm2. rewrite Hso by auto. unfold same_core; auto 10.
+        -- cbn. lia.
+        -- unfold s'; kne.
+        -- unfold slot_ok. rewrite Hsn. unfold fresh. cbn [ver nidv nco nwi nex sst]. rewrite Hkxx, Hkx, Hki.
+           repeat split; auto. cbn. lia.
+        -- unfold coro_ok. rewrite Hki, Hsn. unfold fresh. cbn [sst nco nwi]. repeat split; auto. lia.
+        -- rewrite Hv. apply (i_vis_nodup _ I).
+        -- intro Hx. rewrite Hv in Hx. contradiction.
+        -- change (freel s') with r. intros m Hm. left. rewrite Ef. split; [cbn; auto|]. intro; subst. contradiction.
+        -- change (freel s') with r. rewrite Ef. intros m [Hm|Hm] Hmn; auto. congruence.
+        -- intros m Hm. change (lst s') with (lst s) in Hm.
+           assert (m <> n). { intro; subst m. apply Hnv. unfold vis. apply in_app_iff. auto. }
+           rewrite Hso by auto. apply (i_linked _ I). auto.
+    + (* program finished *)
+      inversion Hst; subst s'; clear Hst.
+      apply (Inv_kmove s _ i KDone I); try reflexivity; try (rewrite Hks; discriminate); try discriminate.
+      * apply kstat_set_eq. exact Hk.
+      * kne.
+      * kxe Hk.
+  - (* KLock j n *)
+    destruct Ci as (Hn & Hgn & Hco & Hwi).
+    destruct (mtx s) eqn:Em; [discriminate|]. destruct (nth_error (kprog k) j) as [[x tok]|] eqn:Ew; [|discriminate].
+    cbn [cfg_fixed add_when rel_succ rel_fail cb_tok cb_notok] in Hst.
+    pose proof (i_slot _ I n Hn) as Sn. unfold slot_ok in Sn. rewrite Hgn in Sn. destruct Sn as (S1 & S2 & S3 & S4).
+    assert (Hnv : ~ In n (vis s)) by (apply vis_not_state; auto).
+    assert (Hvs : vis s = lst s) by (rewrite (vis_eq s (lst s) None); auto; apply app_nil_r).
+    destruct (x =? fv s) eqn:Ex.
+    + (* queued *)
+      set (sl' := upd_slot (slot_at s n) (ver (slot_at s n)) true SQueued).
+      set (s1 := set_nnext (put_slot (set_lst s (n :: lst s)) n sl') n (enc (hd_error (lst s)))) in *.
+      set (s2 := if tok then set_tokens s1 (tokens s1 ++ [((i, j), (n, nidv (slot_at s n)))]) else s1) in *.
+      assert (Hst' : s' = set_coro s2 i (set_kst k (KSusp j n))).
+      { unfold s2. destruct tok; inversion Hst; reflexivity. }
+      subst s'. clear Hst. set (s' := set_coro s2 i _).
+      assert (Hsl2 : slots s2 = set_nth n sl' (slots s)) by (unfold s2; destruct tok; reflexivity).
+      assert (Hsn : slot_at s' n = sl').
+      { change (slot_at s' n) with (slot_at s2 n). rewrite (slot_at_slots s s2 n sl' n Hsl2). apply slot_at_put_eq. exact Hn. }
+      assert (Hso : forall m, m <> n -> slot_at s' m = slot_at s m).
+      { intros m Hm. change (slot_at s' m) with (slot_at s2 m). rewrite (slot_at_slots s s2 n sl' m Hsl2). apply slot_at_put_ne. auto. }
+      assert (Hn' : nslots s' = nslots s).
+      { change (nslots s') with (length (slots s2)). rewrite Hsl2. apply length_set_nth. }
+      assert (Hrest : clients s2 = clients s /\ mtx s2 = mtx s /\ nver s2 = nver s /\ bad s2 = bad s /\ rlog s2 = rlog s /\
+                      freel s2 = freel s /\ lst s2 = n :: lst s /\ coros s2 = coros s).
+      { unfold s2. destruct tok; repeat split; reflexivity. }
+      destruct Hrest as (R1 & R2 & R3 & R4 & R5 & R6 & R7 & R8).
+      assert (Hk2 : nth_error (coros s2) i = Some k) by (rewrite R8; exact Hk).
+      assert (Hki : kstat s' i = KSusp j n) by (unfold s'; apply kstat_set_eq; exact Hk2).
+      assert (Hkne : forall i', i' <> i -> kstat s' i' = kstat s i').
+      { intros i' Hi'. unfold s'. etransitivity; [apply kstat_set_ne; auto|]. apply kstat_frame. exact R8. }
+      assert (Hkxx : forall i', kex s' i' = kex s i').
+      { intro i'. unfold s'. etransitivity; [eapply kex_set; exact Hk2|]. apply kex_frame. exact R8. }
+      assert (Hv' : vis s' = n :: lst s).
+      { rewrite (vis_eq s' (n :: lst s) None); [apply app_nil_r| exact R7 | ]. change (mtx s') with (mtx s2). congruence. }
+      apply (Inv_ktrans s s' i n sl' (KSusp j n) I); auto; try reflexivity.
+      * right. rewrite Hks. eauto.
+      * rewrite Hks. cbn. auto.
+      * lia.
+      * lia.
+      * intros m Hm. right. lia.
+      * intros m Hm1 Hm2. rewrite Hso by auto. unfold same_core; auto 10.
+      * change (nver s') with (nver s2). lia.
+      * unfold slot_ok. rewrite Hsn. unfold sl'. cbn [ver nidv nco nwi nex sst upd_slot]. rewrite Hkxx, Hco, Hwi, Hki.
+        change (nver s') with (nver s2). rewrite R3. repeat split; auto; try (rewrite Hv'; cbn; auto); try lia; try (rewrite S2; f_equal; exact Hco).
+      * unfold coro_ok. rewrite Hki, Hsn. unfold sl'. cbn [sst nco nwi upd_slot]. repeat split; auto. lia.
+      * rewrite Hv'. constructor; [congruence|]. rewrite <- Hvs. apply (i_vis_nodup _ I).
+      * intros m Hm. rewrite Hv' in Hm. rewrite Hvs. destruct Hm; auto.
+      * intros m Hm. rewrite Hv'. rewrite Hvs in Hm. cbn; auto.
+      * change (freel s') with (freel s2). rewrite R6. apply (i_free_nodup _ I).
+      * change (freel s') with (freel s2). rewrite R6. intros m Hm. left. split; auto. intro; subst m.
+        destruct (i_free _ I n Hm). congruence.
+      * change (freel s') with (freel s2). rewrite R6. auto.
+      * intros m Hm. change (lst s') with (lst s2) in Hm. rewrite R7 in Hm. destruct Hm as [<-|Hm].
+        -- rewrite Hsn. reflexivity.
+        -- assert (m <> n) by (intro; subst m; apply Hnv; rewrite Hvs; exact Hm). rewrite Hso by auto. apply (i_linked _ I). auto.
+      * intros y Hy. change (tokens s') with (tokens s2) in Hy. unfold s2 in Hy. destruct tok; [|left; exact Hy].
+        change (tokens (set_tokens s1 ?l)) with l in Hy. change (tokens s1) with (tokens s) in Hy.
+        apply in_app_or in Hy. destruct Hy as [Hy|[<-|[]]]; [left; exact Hy|]. right.
+        unfold tok_ok. cbn [fst snd]. rewrite Hsn. unfold sl'. cbn [ver sst upd_slot]. repeat split; auto; lia.
+    + (* value does not match: the slot goes back *)
+      inversion Hst; subst s'; clear Hst.
+      set (sl' := upd_slot (slot_at s n) (ver (slot_at s n) + 1) (linked (slot_at s n)) SFree).
+      set (s' := set_coro _ i _).
+      assert (Hsl2 : slots s' = set_nth n sl' (slots s)).
+      { unfold s', release, take, put_slot. cbn [slots set_coro set_coros set_freel set_slots].
+        rewrite set_nth_set_nth. f_equal.
+        change (slot_at (set_slots s ?l) n) with (nth n l dummy_slot). rewrite nth_set_nth_eq by exact Hn. reflexivity. }
+      assert (Hsn : slot_at s' n = sl') by (rewrite (slot_at_slots s s' n sl' n Hsl2); apply slot_at_put_eq; exact Hn).
+      assert (Hso : forall m, m <> n -> slot_at s' m = slot_at s m).
+      { intros m Hm. rewrite (slot_at_slots s s' n sl' m Hsl2). apply slot_at_put_ne. auto. }
+      assert (Hn' : nslots s' = nslots s) by (unfold nslots; rewrite Hsl2; apply length_set_nth).
+      assert (Hv : vis s' = vis s) by (apply vis_frame; reflexivity).
+      assert (Hki : kstat s' i = KReady (S j)) by (unfold s'; apply kstat_set_eq; exact Hk).
+      assert (Hkxx : forall i', kex s' i' = kex s i') by (unfold s'; kxe Hk).
+      assert (Hnf : ~ In n (freel s)) by (intro Hx; destruct (i_free _ I n Hx); congruence).
+      apply (Inv_ktrans s s' i n sl' (KReady (S j)) I); auto; try reflexivity.
+      * right. rewrite Hks. eauto.
+      * cbv zeta. intros _. left. unfold sl'. cbn. lia.
+      * rewrite Hks. cbn. intros; lia.
+      * lia.
+      * lia.
+      * intros m Hm. right. lia.
+      * intros m Hm1 Hm2. rewrite Hso by auto. unfold same_core; auto 10.
+      * unfold s'; kne.
+      * unfold slot_ok. rewrite Hsn. unfold sl'. cbn [ver nidv nco nwi nex sst upd_slot]. rewrite Hkxx.
+        change (nver s') with (nver s). repeat split; auto; try lia. cbn. auto.
+      * unfold coro_ok. rewrite Hki. exact Logic.I.
+      * rewrite Hv. apply (i_vis_nodup _ I).
+      * intro Hx. rewrite Hv in Hx. contradiction.
+      * change (freel s') with (n :: freel s). constructor; auto. apply (i_free_nodup _ I).
+      * change (freel s') with (n :: freel s). intros m [<-|Hm]; [right; split; reflexivity|]. left. split; auto. congruence.
+      * change (freel s') with (n :: freel s). intros m Hm _. cbn; auto.
+      * intros m Hm. change (lst s') with (lst s) in Hm.
+        assert (m <> n) by (intro; subst m; apply Hnv; unfold vis; apply in_app_iff; auto).
+        rewrite Hso by auto. apply (i_linked _ I). auto.
+  - discriminate.
+  - (* KResumed j *)
+    inversion Hst; subst s'; clear Hst.
+    apply (Inv_kmove s _ i (KReady (S j)) I); try reflexivity; try (rewrite Hks; discriminate); try discriminate.
+    * rewrite Hks. cbn. intros; lia.
+    * apply kstat_set_eq. exact Hk.
+    * kne.
+    * kxe Hk.
+  - discriminate.
+Qed.
